@@ -78,11 +78,19 @@ fn model_int(t: &[usize], zs: &[f32]) -> Model {
     // envelope of A and B
     m.walls.push(wall("A_F", BoundaryType::GROUND, slab, uid("A"), None, geom(180.0, 0.0, None, rect(5.0, 4.0))));
     m.walls.push(wall("A_S", BoundaryType::EXTERIOR, uid("ext"), uid("A"), None, geom(90.0, 0.0, None, rect(5.0, 3.0))));
-    m.walls.push(wall("B_F", BoundaryType::GROUND, slab, uid("B"), None, geom(180.0, 0.0, None, rect(5.0, 3.0))));
-    m.walls.push(wall("B_S", BoundaryType::EXTERIOR, uid("ext"), uid("B"), None, geom(90.0, 0.0, None, rect(5.0, 2.7))));
-    m.walls.push(wall("B_W", BoundaryType::GROUND, uid("ext"), uid("B"), None, geom(90.0, 90.0, None, rect(3.0, 2.7))));
-    m.windows.push(window("B_S_v", uid("winc"), uid("B_S"), None, 1.2, 1.0, 0.0));
-    m.windows.push(window("B_S_v2", uid("missing-wincons"), uid("B_S"), None, 0.5, 0.5, 0.0));
+    // every fifth configuration: the neighbour is sealed - no element towards outside air or ground and no air renewal
+    // (a shaft, a store room): nothing flows through the partition
+    let sealed = (t[0] + 2 * t[1] + t[3] + t[6]) % 5 == 0;
+    if sealed {
+        m.spaces[1].n_v = Some(0.0);
+        m.walls.push(wall("B_F", BoundaryType::ADIABATIC, slab, uid("B"), None, geom(180.0, 0.0, None, rect(5.0, 3.0))));
+    } else {
+        m.walls.push(wall("B_F", BoundaryType::GROUND, slab, uid("B"), None, geom(180.0, 0.0, None, rect(5.0, 3.0))));
+        m.walls.push(wall("B_S", BoundaryType::EXTERIOR, uid("ext"), uid("B"), None, geom(90.0, 0.0, None, rect(5.0, 2.7))));
+        m.walls.push(wall("B_W", BoundaryType::GROUND, uid("ext"), uid("B"), None, geom(90.0, 90.0, None, rect(3.0, 2.7))));
+        m.windows.push(window("B_S_v", uid("winc"), uid("B_S"), None, 1.2, 1.0, 0.0));
+        m.windows.push(window("B_S_v2", uid("missing-wincons"), uid("B_S"), None, 0.5, 0.5, 0.0));
+    }
     let (own, nxt) = if t[8] == 0 { (uid("A"), uid("B")) } else { (uid("B"), uid("A")) };
     let next = match t[3] {
         3 => None,
@@ -319,7 +327,9 @@ pub fn run(ctx: &Ctx) -> i32 {
         // the envelope elements of the neighbour are checked too (ground walls/slabs of B)
         if i % 16 == 0 {
             for wn in ["B_F", "B_W", "B_S", "A_F"] {
-                check_wall(ctx, &m, wn, &case, acc, ":context");
+                if m.walls.iter().any(|w| w.name == wn) {
+                    check_wall(ctx, &m, wn, &case, acc, ":context");
+                }
             }
         }
     }));
@@ -362,7 +372,7 @@ pub fn run(ctx: &Ctx) -> i32 {
     ctx.note("branches_reached", json!(b));
     ctx.finish(
         "model_checking",
-        "dependent full products per boundary kind: EXTERIOR/ADIABATIC: tilt{0,45,60,60.01,90,119.99,120,180,270} x layer stack{[], [ins], [R-only], [ins,R-only], [massive], missing material, lambda=0, missing construction (+2 in thorough)} x space kind(3); INTERIOR: x neighbour{conditioned, unconditioned, uninhabited, none, dangling} x n_v{given, not} x building ventilation{given, not} x slab insulation x neighbour depth x owner side (the height of the conditioned space alternates 3.0 / 4.5 m, the partition's own size 4x3 / 2.5x2 m and a window in it, with the configuration index); GROUND: x burial depth z x perimeter insulation (D,Rn) x slab size x exposed-perimeter share x slab insulation (the subject is the slab itself for floor tilts; every other configuration lays the ground floor as three slabs, two sharing a construction); + monotonicity variants (extra layer, extra R-only layer, first layer doubled) for air-contact elements and partitions; + every wall of the 7 shipped models; for every 4th model (all in thorough) also the U-value reported in EnergyIndicators.props.walls for every wall of the model, and the subject's U-value with walls, spaces and windows stored in another order (constructions shared between boundary kinds and tilts); oracle: f64 formulas of EN ISO 6946/13370/13789 with the rounding-interval rule; non-trivial = a U-value is defined",
+        "dependent full products per boundary kind: EXTERIOR/ADIABATIC: tilt{0,45,60,60.01,90,119.99,120,180,270} x layer stack{[], [ins], [R-only], [ins,R-only], [massive], missing material, lambda=0, missing construction (+2 in thorough)} x space kind(3); INTERIOR: x neighbour{conditioned, unconditioned, uninhabited, none, dangling} x n_v{given, not} x building ventilation{given, not} x slab insulation x neighbour depth x owner side (the height of the conditioned space alternates 3.0 / 4.5 m, the partition's own size 4x3 / 2.5x2 m and a window in it, with the configuration index; every fifth neighbour is sealed: no element towards outside or ground and n_v = 0); GROUND: x burial depth z x perimeter insulation (D,Rn) x slab size x exposed-perimeter share x slab insulation (the subject is the slab itself for floor tilts; every other configuration lays the ground floor as three slabs, two sharing a construction); + monotonicity variants (extra layer, extra R-only layer, first layer doubled) for air-contact elements and partitions; + every wall of the 7 shipped models; for every 4th model (all in thorough) also the U-value reported in EnergyIndicators.props.walls for every wall of the model, and the subject's U-value with walls, spaces and windows stored in another order (constructions shared between boundary kinds and tilts); oracle: f64 formulas of EN ISO 6946/13370/13789 with the rounding-interval rule; non-trivial = a U-value is defined",
         true,
         json!({}),
     )
